@@ -253,7 +253,7 @@ func (l *poolLog) hook(c *websocket.Conn, kind string, obj uintptr) {
 func runC07(ctx *runCtx) {
 	rep := ctx.rep
 	rep.Rule = "2..8 connections run concurrently (both roles, compression off / takeover / no takeover), every byte of every payload on connection i is the tag byte of i; per round one of: read again after end-of-message, abandon a message, peer Close frame inside a (compressed, fragmented) message, CloseNow racing a reader inside a message, context expiry inside a message, plain reads, writes with an abandoned Writer; then Close/CloseNow and a new connection that reuses the pools. " +
-		"oracle: every byte returned by any read equals the connection's own tag; the verif hook logs every inflater Get/Put/use with connection and object identity, checked by an ownership monitor in the harness and by the Lean monitor; at every inflater Get the hook also inspects the dictionary (the connection's sliding window, fresh or from the pool): every byte must be the connection's own tag. Targeted scenarios: wsjson buffer pool after an invalid document; a connection closed while a frame write is stuck in the transport; sliding windows of closed context-takeover connections vs a new connection receiving a stream whose back-references point before its start (must fail, never return the earlier bytes). Thorough tier repeats under the race detector. distinct = (conns, rounds, seed)"
+		"oracle: every byte returned by any read equals the connection's own tag; the verif hook logs every inflater Get/Put/use with connection and object identity, checked by an ownership monitor in the harness and by the Lean monitor; at every inflater Get the hook also inspects the dictionary (the connection's sliding window, fresh or from the pool): every byte must be the connection's own tag. Targeted scenarios: wsjson buffer pool after an invalid document; a connection closed while a frame write is stuck in the transport (also after a short-deadline Ping gave up waiting for that frame); sliding windows of closed context-takeover connections vs a new connection receiving a stream whose back-references point before its start (must fail, never return the earlier bytes). Thorough tier repeats under the race detector. distinct = (conns, rounds, seed)"
 	rng := newRng(ctx.seed, "c07")
 	batches := 12
 	if ctx.thorough() {
@@ -343,7 +343,8 @@ func runC07(ctx *runCtx) {
 	for _, sc := range []struct {
 		name string
 		f    func(int) (string, string)
-	}{{"json-pool", jsonPoolScenario}, {"stale-writer", staleWriterScenario}, {"window-pool", windowPoolScenario}} {
+	}{{"json-pool", jsonPoolScenario}, {"stale-writer", func(n int) (string, string) { return staleWriterScenario(n, false) }},
+		{"stale-writer-after-failed-ping", func(n int) (string, string) { return staleWriterScenario(n, true) }}, {"window-pool", windowPoolScenario}} {
 		sh, w := "", ""
 		func() {
 			defer func() {
